@@ -108,6 +108,7 @@ async fn a_write(op: &Value) -> Value {
     let stop_after = op.get("stop_after").and_then(|v| v.as_u64()).map(|x| x as usize);
     let end = s(op, "end");
     let mut off = 0usize;
+    let mut acked: u64 = 0; // bytes the writer acknowledged (sum of the counts it returned)
     let nchunks = chunks.len();
     for (i, n) in chunks.iter().enumerate() {
         if let Some(sa) = stop_after {
@@ -134,7 +135,9 @@ async fn a_write(op: &Value) -> Value {
             {
                 let fut = w.write(chunk);
                 futures::pin_mut!(fut);
-                let _ = futures::poll!(fut);
+                if let std::task::Poll::Ready(Ok(k)) = futures::poll!(fut) {
+                    acked += k as u64; // it completed at once: acknowledged after all
+                }
             }
             if flush_after.contains(&i) {
                 if let Err(e) = w.flush().await {
@@ -157,6 +160,7 @@ async fn a_write(op: &Value) -> Value {
                 v["chunk"] = json!(i);
                 return v;
             }
+            acked += rest.len() as u64;
             rest = &rest[rest.len()..];
         }
         loop {
@@ -175,6 +179,7 @@ async fn a_write(op: &Value) -> Value {
                     if k > rest.len() {
                         return json!({"r":"err","v":"Bogus","msg":"write returned more than given"});
                     }
+                    acked += k as u64;
                     rest = &rest[k..];
                     if rest.is_empty() {
                         break;
@@ -232,6 +237,7 @@ async fn a_write(op: &Value) -> Value {
             if v["r"] == "err" {
                 v["phase"] = json!("commit");
             }
+            v["acked"] = json!(acked);
             v
         }
     }
